@@ -31,5 +31,6 @@ def run(rep, tier, seed):
     rep.assume("A1", "A2", "A4", "A5", "A6", "A7", "A8")
     D.run_contracts(rep, "C08", D.PART_HEUR, tier, with_lemmas=False)
     D.run_contracts(rep, "C08", [("contracts.exact", "kk_part")], tier, only_tagged=True)
+    D.run_static(rep, "C08", ("purity",))      # every per-call contract presupposes that results are functions of the arguments
     t3(rep, tier, seed)
     D.link_falsifier(rep)
